@@ -15,6 +15,7 @@ Decided (the block tables are parsed at the documented positions and the reassem
 Not decided: the bytes themselves (inflate correctness, concatenation arithmetic, 128-byte padding, per-LOD bookkeeping).
 """
 import json
+import re
 
 from .. import dispatch as D
 from ..mir import const_int, op_place
@@ -183,6 +184,27 @@ def run(ctx):
     ctx.not_decided("the reassembled bytes themselves: inflate correctness, concatenation arithmetic, padding, per-LOD offsets")
 
     n = w1(ctx, TYPES)
+    # which tail record follows the file-info header is decided by the entry type: the three optional records are
+    # read exactly under `file_type == Standard / Model / Texture` (the wire model records *that* a field is conditional;
+    # this reads the condition itself, in the spellings `a == T::V`, `T::V == a`, `matches!(a, T::V)`)
+    from .. import wire as _W
+
+    fi_ = wm.items.by_path.get("sqpack::data::FileInfo")
+    if not fi_:
+        ctx.fail_closed("W1", "sqpack::data::FileInfo not found")
+    else:
+        want_c = {"standard_info": "Standard", "model_info": "Model", "texture_info": "Texture"}
+        for f_ in fi_["fields"]:
+            if f_["name"] not in want_c:
+                continue
+            conds = [d_.text.replace(" ", "") for d_ in _W.directives(f_["attrs"]) if d_.name == "if" and "r" in d_.side]
+            v_ = want_c[f_["name"]]
+            forms = {f"file_type==FileType::{v_}", f"FileType::{v_}==file_type", f"matches!(file_type,FileType::{v_})", f"(file_type==FileType::{v_})"}
+            known = any(re.fullmatch(r"\(?(file_type==FileType::\w+|FileType::\w+==file_type|matches!\(file_type,FileType::\w+\))\)?", c_) for c_ in conds)
+            if len(conds) == 1 and not known:
+                ctx.fail_closed("W1", f"FileInfo.{f_['name']}: condition `{conds[0]}` is not in a form this rule reads")
+            else:
+                ctx.ob("W1", f"cond|FileInfo.{f_['name']}", len(conds) == 1 and conds[0] in forms, f"FileInfo.{f_['name']} is read under {conds}; must be exactly when file_type is FileType::{v_}", fi_["file"], fi_["line"])
     ctx.floor("W1", "dat structures", n, 7)
     w5_repr(ctx, "sqpack::data::FileType", {"Empty": 1, "Standard": 2, "Model": 3, "Texture": 4})
     from .. import wire as W
